@@ -57,7 +57,7 @@ func runERRFLOW(c *Ctx) {
 			}
 			pos := P.InstrPos(ci)
 			what := fmt.Sprintf("error of %s in %s", name, ir.FuncName(fn))
-			if why, ok := errflowExceptions[ir.FuncName(fn)]; ok {
+			if why, ok := exceptionFor(c, fn, func(n string) (string, bool) { w, ok := errflowExceptions[n]; return w, ok }, 0); ok {
 				c.OK(pos, what, "exception: "+why, false)
 				continue
 			}
@@ -104,6 +104,7 @@ func runERRFLOW(c *Ctx) {
 // recordsOrPanics: the error value is stored somewhere or passed to panic.
 func recordsOrPanics(v ssa.Value) bool {
 	seen := map[ssa.Value]bool{}
+	depth := 0
 	var walk func(x ssa.Value) bool
 	walk = func(x ssa.Value) bool {
 		if seen[x] || x.Referrers() == nil {
@@ -118,6 +119,21 @@ func recordsOrPanics(v ssa.Value) bool {
 				}
 			case *ssa.Panic:
 				return true
+			case *ssa.Call:
+				// handed to a helper (local closure or static function) that records its parameter
+				if callee := calleeOrClosure(&y.Call); callee != nil && callee.Blocks != nil && depth < 2 {
+					off := len(callee.Params) - len(y.Call.Args) // bound receiver / none
+					for ai, a := range y.Call.Args {
+						if a == x && ai+off >= 0 && ai+off < len(callee.Params) {
+							depth++
+							ok := walk(callee.Params[ai+off])
+							depth--
+							if ok {
+								return true
+							}
+						}
+					}
+				}
 			case *ssa.MakeInterface:
 				if walk(y) {
 					return true
@@ -135,4 +151,52 @@ func recordsOrPanics(v ssa.Value) bool {
 		return false
 	}
 	return walk(v)
+}
+
+// calleeOrClosure: the function a call runs when that is decidable locally: a static callee (generic
+// instantiations mapped to their origin), or the closure / function a local variable was bound to.
+func calleeOrClosure(com *ssa.CallCommon) *ssa.Function {
+	if com.IsInvoke() {
+		return nil
+	}
+	if f := ir.Callee(com); f != nil {
+		return f
+	}
+	switch x := ir.Origin(com.Value).(type) {
+	case *ssa.MakeClosure:
+		f, _ := x.Fn.(*ssa.Function)
+		return f
+	case *ssa.Function:
+		return x
+	}
+	return nil
+}
+
+// exceptionFor: a tabled exception names one function; it also covers the private helpers split out of that
+// function (unexported, never used as a value, every call site inside an excepted function), so that extracting
+// a loop into a helper neither loses the exception nor widens it to code with other callers.
+func exceptionFor(c *Ctx, fn *ssa.Function, table func(name string) (string, bool), depth int) (string, bool) {
+	outer := ir.Outermost(fn)
+	if why, ok := table(ir.FuncName(outer)); ok {
+		return why, true
+	}
+	if depth >= 2 || outer.Object() == nil || outer.Object().Exported() || c.Facts.addrTaken[outer] {
+		return "", false
+	}
+	callers := c.P.Callers[outer]
+	if len(callers) == 0 {
+		return "", false
+	}
+	why := ""
+	for _, cs := range callers {
+		if _, isCall := cs.(*ssa.Call); !isCall {
+			return "", false
+		}
+		w, ok := exceptionFor(c, cs.Parent(), table, depth+1)
+		if !ok {
+			return "", false
+		}
+		why = w + " (private helper of " + ir.FuncName(ir.Outermost(cs.Parent())) + ")"
+	}
+	return why, true
 }
